@@ -39,8 +39,9 @@ Reset ==
   /\ res' = [c \in AllChans |-> [k \in Kinds |-> NoRes]] /\ rcpc' = "idle"
   /\ upstream' = [c \in AllChans |-> {}] /\ ncrash' = 0
 
-\* the recorded sweep input carries a control block iff ITS channel is a taproot channel
-SignableT == Trace[l].cb = B(Taproot(Ch))
+\* the recorded sweep input is of ITS channel's type: a taproot witness type and a control block iff the channel is a
+\* taproot channel
+SignableT == Trace[l].cb = B(Taproot(Ch)) /\ Trace[l].tw = B(Taproot(Ch))
 \* the channel under which the report of this checkpoint was filed
 RepTarget == IF Trace[l].rc = "" THEN Ch ELSE Trace[l].rc
 \* whose notification the resolveContracts goroutine is serving: the channel's own if it has one pending
@@ -57,7 +58,7 @@ TNext ==
   \/ IsW("MarkResolved") /\ Ch \in chans /\ \E from \in Notifier(Ch) : MarkClosed(from, Ch)
   \/ IsW("Wipe") /\ Ch \in chans /\ Wipe(Ch)
   \/ Is("Sweep") /\ Ch \in chans /\ K \in Kinds /\ RLaunch(Ch, K, SignableT)
-  \/ Is("Sweep") /\ Ch \in chans /\ K = "anchor" /\ RAnchor(Ch, TRUE)
+  \/ Is("Sweep") /\ Ch \in chans /\ K = "anchor" /\ RAnchor(Ch, TRUE, Trace[l].tw = 1)
   \/ Is("SweepDone") /\ Ch \in chans /\ K \in Kinds /\ SweepDone(Ch, K)
   \/ Is("Up") /\ Ch \in chans /\ K = "fail" /\ RUp(Ch)
   \* the live node stopped answering (reported by the orchestrator)
